@@ -1062,7 +1062,7 @@ class _Observer:
                         ctx.violation(site, "parameters_changed",
                                       f"history {_fmt(hist)} then {_fmt([op])}: parameter {grp}.{k} changed",
                                       observed=W.describe(st1[grp][k]), expected=W.describe(w), block=blk)
-        query = op[0] in ("hedge", "pl", "input", "loss", "price", "fit", "chedge", "badprice", "badloss", "badpl")
+        query = op[0] in ("hedge", "pl", "input", "loss", "price", "fit", "backward", "chedge", "badprice", "badloss", "badpl")
         # an evaluation of the deep copy is compared with the same evaluation by a fresh hedger holding the copy's parameters
         ref_op = ("hedge", op[1]) if on_copy else op
         donor_state = after.pre_copy_state if on_copy else after.pre_state
